@@ -462,7 +462,7 @@ impl Prop for C18 {
     fn enumerate(&self, tier: Tier, seed: u64) -> Vec<Case> {
         let mut out = vec![];
         for c in c02::C02.enumerate(tier, seed) {
-            if c.tagdef == "AUTOMATIC" {
+            if c.tagdef == "AUTOMATIC" && c.aliases.is_empty() {
                 out.push(Case { ty: c.ty.clone(), implied: c.implied, others: c.others.clone(), extra: String::new() });
                 if c.others.is_empty() && !c.implied && c.ty.depth() > 1 {
                     out.push(Case { ty: c.ty, implied: true, others: vec![], extra: String::new() });
